@@ -19,7 +19,7 @@ func init() {
 		Patterns: []string{"./cache"},
 		Run:      runC19,
 		Explanation: "Decides structural necessary conditions of 'cache wrappers never return wrong, deleted or expired data; placement is stable' for every type of package cache that implements Cache and wraps an inner Cache: (R1) each method forwards only to the same-named method of the inner cache; (R2) key/value transforms are uniform: the versioned wrapper passes every key through addVersion on the way in and removeVersion on the way out, with a '%d'+non-digit prefix; the compressing wrapper hands the inner cache a freshly allocated snappy encoding (dst nil) of the caller's value and returns only successfully decoded values; " +
-			"(R3) the LRU layer: lock discipline on the LRU, a local entry is returned only if not expired and expired ones are removed, write-through before the local insert, Add inserts locally only on success, back-fill uses now+defaultTTL, Delete removes locally before the backend; (R4) memcached placement: the server list is assigned only from ResolveServers of a natural-sorted copy, PickServer indexes it with jumpHash(xxhash(key), len) under the lock, jumpHash's cone has no nondeterministic source. Also: (R5) wrappers never short-circuit a mutation: the inner same-named call is on every path. NOT decided: equivalence with a map-with-expiry model over operation sequences; jump-hash's monotonicity.",
+			"(R3) the LRU layer: lock discipline on the LRU, a local entry is returned only if not expired and expired ones are removed, write-through before the local insert, Add inserts locally only on success, back-fill uses now+defaultTTL, Delete removes locally before the backend; (R4) memcached placement: the server list is assigned only from ResolveServers of a natural-sorted copy, PickServer indexes it with jumpHash(xxhash(key), len) under the lock, jumpHash's cone has no nondeterministic source. Also: (R5) wrappers never short-circuit a mutation: the inner same-named call is on every path. (R4 also) every return of jumpHash answers with the loop's last bucket (or 0 for a bucket count ≤ 1): no bucket count takes another route. NOT decided: equivalence with a map-with-expiry model over operation sequences; jump-hash's monotonicity.",
 	}
 }
 
@@ -790,7 +790,6 @@ func c19Selector(c *core.Ctx, pkg *packages.Package) {
 		c.Check(len(loops) == 1 && loopRets >= 1 && len(badRets) == 0, "R4", "jumpHash:one-path", fn.Pos(), fmt.Sprintf("%d loop(s), %d return(s) of the loop's last bucket, %d constant shortcut(s) for a bucket count ≤ 1, other routes to an answer: %v — every bucket count runs the same jump sequence (append-stability needs it)", len(loops), loopRets, shortcutRets, badRets), 1)
 	}
 }
-
 
 // c19IsTrimPrefix: fn(k) computes strings.TrimPrefix(k, recv.versionPrefix) in one of its equivalent spellings:
 // every return is TrimPrefix itself, the first result of strings.CutPrefix(k, prefix) (which is k when the prefix is
